@@ -676,10 +676,11 @@ def write_evidence(pid, tier, seed, results, reported, known_printed, det, wall,
 
 
 def _scratch_cleanup():
-    # c05_meta keeps its named files in a private tmpfs directory per worker process; a worker that ends at a
-    # violation exits without removing it
+    # c05_meta and c11_dist keep their named files in a private tmpfs directory per worker process; a worker that ends
+    # at a violation (or is stopped at the end of the time box) exits without removing it
     import glob
-    for d in glob.glob("/dev/shm/feat3sim_c05_*") + glob.glob(os.path.join(os.environ.get("TMPDIR", "/tmp"), "feat3sim_c05_*")):
+    tmp = os.environ.get("TMPDIR", "/tmp")
+    for d in glob.glob("/dev/shm/feat3sim_c05_*") + glob.glob(os.path.join(tmp, "feat3sim_c05_*")) + glob.glob("/dev/shm/feat3sim_c11d_*") + glob.glob(os.path.join(tmp, "feat3sim_c11d_*")):
         pid = d.rsplit("_", 1)[-1]
         if pid.isdigit() and os.path.exists("/proc/" + pid):
             continue   # a worker of another check that is still running
